@@ -25,7 +25,7 @@ func init() { core.Register(c08{}) }
 func (c08) ID() string    { return "C08" }
 func (c08) Level() string { return "exploration" }
 func (c08) Rule() string {
-	return "two case kinds. (sched) small programs - 2 clients x 1..2 ops or 3 clients x 1 op, op in {Put k, Delete k, Get k, and a 40 KiB Put that makes the active file rotate inside the other clients' windows} on one shared, pre-populated key, optionally plus a client running Merge - are executed under the pause scheduler: every client goroutine blocks at each engine hook point (put.afterAppend, get.afterIndex, delete.afterCheck, delete.afterAppend, merge.afterRotate, merge.record, merge.beforeMarker, merge.done) until granted; a depth-first search over the grant choices enumerates every ordering of the hook-delimited segments (a granted client that neither parks nor returns within 25 ms is taken to be blocked on an engine lock and another client is granted: this only steers exploration); each execution yields a history. (stress) 2..16 clients x 4..80 ops over 1..4 keys (at most ~64 operations per key and history: blind deletes make absent reads ambiguous, which is what drives the search cost), small DataFileSize, a concurrent Merge client in a third of the cases, stateless yield/sleep injection at the same hook points, -race build. Every history is recorded at the client boundary (call stamp before invoking, return stamp after the reply, one monotonic clock; every Put writes a unique value so a read identifies its write) and, completed by one final Get per key, is checked with porcupine v1.3.0 against a per-key register model (partitioned by key, 30 s timeout -> inconclusive); a returned error from Put/Delete/Get other than key-not-found is a violation; after quiescence the database is closed and reopened and every key must read what the final live Get read. Non-trivial: sched program with >=3 distinct realised interleavings, stress history in which >=2 clients' operations on one key overlapped in time; distinct = hash of the realised grant sequence resp. of the history"
+	return "two case kinds. (sched) small programs - 2 clients x 1..2 ops or 3 clients x 1 op, op in {Put k, Delete k, Get k, and a 40 KiB Put that makes the active file rotate inside the other clients' windows} on one shared, pre-populated key, optionally plus a client running Merge - are executed under the pause scheduler: every client goroutine blocks at each engine hook point (put.afterAppend, get.afterIndex, delete.afterCheck, delete.afterAppend, merge.afterRotate, merge.record, merge.beforeMarker, merge.done) until granted; a depth-first search over the grant choices enumerates every ordering of the hook-delimited segments (a granted client that neither parks nor returns within 25 ms is taken to be blocked on an engine lock and another client is granted: this only steers exploration); each execution yields a history. (stress) 2..16 clients x 4..80 ops over 1..4 keys (at most ~64 operations per key and history: blind deletes make absent reads ambiguous, which is what drives the search cost), small DataFileSize, a concurrent Merge client in a third of the cases, stateless yield/sleep injection at the same hook points, -race build. Every history is recorded at the client boundary (call stamp before invoking, return stamp after the reply, one monotonic clock; every Put writes a unique value so a read identifies its write) and, completed by one final Get per key, is checked with porcupine v1.3.0 against a per-key register model (partitioned by key, 30 s timeout -> inconclusive); a returned error from Put/Delete/Get other than key-not-found is a violation; after quiescence the database is closed and reopened and every key must read what the final live Get read. Non-trivial: sched program with >=3 distinct realised interleavings, stress history in which >=2 clients' operations on one key overlapped in time; distinct = hash of the realised grant sequence resp. of the history All three sync strategies are used (Threshold with BytesPerSync 1..700, so that an fsync happens inside many of the writes)."
 }
 func (c08) Assumptions() []string {
 	return []string{"porcupine v1.3.0 decides linearizability of the recorded history", "schedule control exists only at the hook points; pre-emptions inside a segment are reached by the stress part only",
@@ -77,6 +77,12 @@ func (c08) Cases(tier string, seed uint64) []core.Case {
 				continue
 			}
 			cfg := core.Config{IndexType: core.IndexTypes[r.Intn(3)], ShardNum: []int{1, 16}[r.Intn(2)], FileIO: byte(r.Intn(2)), DataFileSize: 64 << 10}
+			switch r.Intn(4) {
+			case 1:
+				cfg.Sync, cfg.BytesPerSync = 2, 1
+			case 3:
+				cfg.Sync = 1
+			}
 			out = append(out, core.Case{Index: len(out), ID: fmt.Sprintf("c08-sched-%04d", len(out)), Seed: r.U64(), Data: c08Case{Kind: "sched", Prog: p, Merge: mg, Cfg: cfg}})
 		}
 	}
@@ -86,6 +92,12 @@ func (c08) Cases(tier string, seed uint64) []core.Case {
 	}
 	for i := 0; i < ns; i++ {
 		cfg := core.Config{IndexType: core.IndexTypes[i%3], ShardNum: []int{1, 4, 16}[r.Intn(3)], FileIO: byte((i / 3) % 2), DataFileSize: []int64{4 << 10, 16 << 10, 64 << 10}[r.Intn(3)]}
+		switch i % 4 {
+		case 1:
+			cfg.Sync, cfg.BytesPerSync = 2, uint([]int{1, 64, 700}[r.Intn(3)]) // Threshold: an fsync inside many of the writes
+		case 3:
+			cfg.Sync = 1 // Always
+		}
 		cl := []int{2, 3, 4, 8, 16}[r.Intn(5)]
 		nops := r.Range(30, 80)
 		nkeys := r.Range(1, 4)
